@@ -105,6 +105,8 @@ def property_verdict(case, line):
         if ro != exp:
             return "stable sort: arrangement differs from std::stable_sort" if c["stable"] else \
                 "canonicalised arrangement is not the input multiset"
+    if "GUARD-OVERWRITTEN" in line:
+        return "the sort wrote outside the range it was given (%s)" % line[line.find("GUARD-OVERWRITTEN"):][:40]
     if f.get("leak", "0") != "0":
         return "temporary copies still alive after the sort returned (live-instance counter +%s)" % f.get("leak")
     if f.get("err", "0") != "0":
@@ -122,7 +124,13 @@ def property_verdict(case, line):
 VARIANTS = [("apk5", "pair", True, 1), ("adk5", "pair", False, 1), ("avn5", "pair", True, 1), ("avl5", "pair", False, 1),
             ("adn5", "trk", True, 1), ("av-2", "int", False, 1),
             ("avk4", "pair", True, 2), ("avk3", "pair", False, 2), ("av-2", "pair", True, 2), ("bvk5", "pair", False, 2),
-            ("bdl4", "pair", True, 2), ("bpn3", "trk", False, 2)]
+            ("bdl4", "pair", True, 2), ("bpn3", "trk", False, 2),
+            # iterator kinds that do not address contiguous ascending memory (r = std::vector<T>::reverse_iterator,
+            # q = std::reverse_iterator<T*>, d = std::deque across block boundaries), with a trivially copyable
+            # (key, index) type "pod", int, and the two non-trivial element types; guard cells around the range
+            ("ark5", "pod", True, 3), ("aqk5", "pod", False, 3), ("adk5", "pod", True, 3), ("avk5", "pod", False, 3),
+            ("adk5", "int", False, 3), ("ark5", "int", True, 3), ("ark5", "pair", False, 3), ("aqk5", "trk", True, 3)]
+NONCONTIG = [v for v in VARIANTS if v[3] == 3]
 VARIANT_SET = {(v, e): k for v, e, _, k in VARIANTS}
 API_SURFACE = [
     {"entry": "tlx::parallel_mergesort(begin, end, comp, num_threads, mwmsa)", "called": True, "by": "every default case (variant avk5), all three element types"},
@@ -136,6 +144,8 @@ API_SURFACE = [
     {"entry": "mwmsa = MWMSA_LAST", "called": False, "by": "not a splitting algorithm (enum end marker): neither branch runs and pieces stay uninitialised - outside the property"},
     {"entry": "num_threads = 0", "called": False, "by": "n / num_threads divides by zero; the property quantifies over thread counts >= 1 (hardware_concurrency() may legally return 0: the default-thread variants are skipped then)"},
     {"entry": "iterator kinds: std::vector<T>::iterator / T* / std::deque<T>::iterator", "called": True, "by": "v: default; p: apk5, bpn3; d: adk5, adn5, bdl4"},
+    {"entry": "iterator kinds not addressing contiguous ascending memory: std::vector<T>::reverse_iterator (v.rbegin()), std::reverse_iterator<T*>, std::deque across block boundaries (n up to 300)", "called": True, "by": "variants ark5 / aqk5 / adk5 of harness set 3, with guard cells around the range, element types pod (trivially copyable (key,index)), int, (key,index)+tag, ledger type; both splittings, stable and unstable, 1..16 threads"},
+    {"entry": "element type: trivially copyable aggregate (key, index)", "called": True, "by": "element kind pod (harness set 3), through vector, reverse and deque iterators"},
     {"entry": "element types: int (trivial), (key,index)+writer tag, heap-owning ledger type", "called": True, "by": "default cases; ledger type also through deque / pointer variants"},
     {"entry": "element type: move-only", "called": False, "by": "does not compile: the sort copies its input with std::uninitialized_copy and merges with copy assignment (CopyConstructible + CopyAssignable required)"},
     {"entry": "comparators: less / greater by key (aggregate functor with state)", "called": True, "by": "default cases (L / G)"},
@@ -151,9 +161,9 @@ API_SURFACE = [
 from concurrent.futures import ThreadPoolExecutor
 REPO_SRC = ["tlx/algorithm/parallel_multiway_merge.cpp"]
 found = False
-with ThreadPoolExecutor(3) as ex:
+with ThreadPoolExecutor(4) as ex:
     builds = [ex.submit(ck.build_cpp, "c06_harness_%d" % k, ["harness/C06/pms_harness.cpp"], None, REPO_SRC, ["-DC06_SET=%d" % k])
-              for k in (0, 1, 2)]
+              for k in (0, 1, 2, 3)]
     builds = [f.result() for f in builds]
 exes = [b[0] for b in builds]
 phase_s["build_harness"] = round(_time.time() - _t0 - phase_s["prove"], 1)
@@ -172,7 +182,7 @@ if exe is not None:
 corpus_file = os.path.join(verif.VERIF, "corpus", "C06", "cases.txt")
 cases = [l.strip() for l in open(corpus_file) if l.strip() and not l.startswith("#")]
 ncorpus = len(cases)
-hist = {"corpus": ncorpus, "grid": 0, "few_per_thread": 0, "many_threads": 0, "oversampling_extremes": 0, "api_variants": 0, "large": 0}
+hist = {"corpus": ncorpus, "grid": 0, "few_per_thread": 0, "many_threads": 0, "oversampling_extremes": 0, "noncontiguous_ranges": 0, "api_variants": 0, "large": 0}
 pat_hist = {}
 if ck.replay:
     cases = [json.load(open(ck.replay))["case"]]
@@ -226,10 +236,22 @@ else:
             cases.append(mk_case(rng.choice(ELEMS), rng.chance(2, 3), "X", "G" if rng.chance(1, 3) else "L", p,
                                  rng.choice([25, 64, 100]), keys))
         hist["oversampling_extremes"] = hist.get("oversampling_extremes", 0) + 1
+    # ranges that are not contiguous ascending memory (reverse iterators, deque blocks), trivially copyable and other elements
+    for _ in range(3000 if ck.thorough() else 700):
+        variant, elem, stable, _set = rng.choice(NONCONTIG)
+        p = rng.choice([1, 2, 3, 4, 5, 7, 8, 12, 16])
+        if variant[1] == "d":
+            n = rng.choice([rng.range(60, 70), rng.range(120, 135), rng.range(0, 300), rng.range(0, 300)])   # deque blocks: 64 pods / 128 ints
+        else:
+            n = rng.choice([0, 1, 2, p - 1, p, p + 1, rng.range(0, 50), rng.range(0, 50)])
+        keys, pat = gen_keys(rng, max(0, n), rng.choice([1, 2, 3, 4, 50]))
+        pat_hist[pat] = pat_hist.get(pat, 0) + 1
+        cases.append(mk_case(elem, stable, rng.choice(["E", "X"]), "G" if rng.chance(1, 3) else "L", p, rng.choice(OSS), keys, variant))
+        hist["noncontiguous_ranges"] = hist.get("noncontiguous_ranges", 0) + 1
     # API variants (entry point / iterator kind / comparator kind / defaulted arguments), chosen per case from the seed
     nvar = 5000 if ck.thorough() else 900
     for _ in range(nvar):
-        variant, elem, stable, _set = rng.choice(VARIANTS)
+        variant, elem, stable, _set = rng.choice([v for v in VARIANTS if v[3] in (1, 2)])
         nargs = int(variant[3])
         p = rng.choice([1, 2, 3, 4, 5, 7, 8, 12, 16])
         split = rng.choice(["E", "X"]); cmp_ = "G" if rng.chance(1, 3) else "L"
@@ -262,7 +284,7 @@ open(casefile, "w").write("\n".join(cases) + "\n")
 drv, dlog = ck.ocaml_driver("C06")
 distinct = set()
 samples = []
-stats = {"stable": 0, "unstable": 0, "exact": 0, "sampling": 0, "int": 0, "pair": 0, "trk": 0,
+stats = {"stable": 0, "unstable": 0, "exact": 0, "sampling": 0, "int": 0, "pair": 0, "trk": 0, "pod": 0,
          "n<=1": 0, "n<threads": 0, "n_not_multiple_of_threads": 0, "tie_across_window_boundary": 0,
          "sampling_comparator_not_natural_order": 0, "some_thread_merges_nothing": 0}
 tsan = None
@@ -289,7 +311,7 @@ else:
     # executable, the API-variant cases on the two variant executables, all in parallel
     def exe_of(c):
         pc_ = parse_case(c)
-        return exes[VARIANT_SET.get((pc_["variant"], pc_["elem"]), 0) if pc_["variant"] != "avk5" else 0]
+        return exes[VARIANT_SET.get((pc_["variant"], pc_["elem"]), 0)]
     main_idx = [i for i, c in enumerate(cases) if exe_of(c) == exes[0]]
     jobs = []                                            # (exe, [case indices])
     for e_ in exes[1:]:
@@ -371,8 +393,15 @@ else:
                       "footprint_differences_total": len(footprint_diffs)},
                      no_input=True)
     for ci, e_, o_ in crashed[:2]:
-        # crash (sanitizer / signal) in the middle of a job: the first case of that job without an output line
+        # crash (sanitizer / signal) or deadlock in the middle of a job: the first case of that job without an output line
         c = cases[ci]
+        if "C06-WATCHDOG" in o_:
+            # the harness's watchdog names the case itself: no result within its limit (the calling thread sits in join())
+            found = True
+            ck.violation("real (stable_)parallel_mergesort does not terminate (no result within the harness's time limit; deadlock)",
+                         {"case": c, "watchdog": [l for l in o_.splitlines() if l.startswith("C06-WATCHDOG")][0][:300],
+                          "replay_cmd": "bin/check C06 --replay <this file>"})
+            continue
         r, o = run_one(e_, c, env)
         found = True
         ck.violation("real (stable_)parallel_mergesort crashes under ASan/UBSan on a valid input" if r != 0 else
@@ -392,7 +421,7 @@ else:
         if texe is None:
             tsan = {"built": False}
         else:
-            sub = cases[:ncorpus] + [c for i, c in enumerate(cases[ncorpus:]) if i % 9 == 0 and len(c) < 2500 and parse_case(c)["variant"] == "avk5"][:4000]
+            sub = cases[:ncorpus] + [c for i, c in enumerate(cases[ncorpus:]) if i % 9 == 0 and len(c) < 2500 and parse_case(c)["variant"] == "avk5" and parse_case(c)["elem"] != "pod"][:4000]
             tf = os.path.join(ck.scratch, "tsan_cases.txt"); open(tf, "w").write("\n".join(sub) + "\n")
             rc3, out3 = verif.sh([texe, tf], timeout=3000, env=dict(os.environ, TSAN_OPTIONS="halt_on_error=1 second_deadlock_stack=1"))
             lines3 = [l for l in out3.splitlines() if l.startswith("keys=")]
@@ -402,6 +431,10 @@ else:
                 c = sub[len(lines3)] if len(lines3) < len(sub) else None
                 ck.violation("ThreadSanitizer reports a data race inside (stable_)parallel_mergesort",
                              {"case": c, "log_tail": out3[-3000:]})
+            elif "C06-WATCHDOG" in out3:
+                found = True
+                ck.violation("(stable_)parallel_mergesort does not terminate in the ThreadSanitizer build (deadlock)",
+                             {"case": sub[len(lines3)] if len(lines3) < len(sub) else None, "log_tail": out3[-800:]})
             elif rc3 != 0:
                 tsan["note"] = "ThreadSanitizer runtime unavailable in this environment: " + out3[-200:]
 
@@ -413,8 +446,8 @@ if ck.thorough() and exe is not None and drv is not None and ck.violations == 0 
     if oexe is None:
         openmp = {"built": False, "log": olog[-300:]}
     else:
-        sub = [c for c in cases[:ncorpus] if parse_case(c)["variant"] == "avk5"] + \
-              [c for i, c in enumerate(cases[ncorpus:]) if i % 7 == 0 and len(c) < 2500 and parse_case(c)["variant"] == "avk5"][:3000]
+        sub = [c for c in cases[:ncorpus] if parse_case(c)["variant"] == "avk5" and parse_case(c)["elem"] != "pod"] + \
+              [c for i, c in enumerate(cases[ncorpus:]) if i % 7 == 0 and len(c) < 2500 and parse_case(c)["variant"] == "avk5" and parse_case(c)["elem"] != "pod"][:3000]
         of = os.path.join(ck.scratch, "omp_cases.txt"); open(of, "w").write("\n".join(sub) + "\n")
         env_o = dict(os.environ, ASAN_OPTIONS="detect_leaks=1", OMP_DYNAMIC="false")
         for k_ in ("OMP_THREAD_LIMIT", "OMP_NUM_THREADS"): env_o.pop(k_, None)
